@@ -4,6 +4,7 @@ import (
 	"context"
 	"errors"
 	"fmt"
+	"io"
 
 	astits "github.com/asticode/go-astits"
 )
@@ -11,6 +12,8 @@ import (
 // C18: failures of the underlying reader or writer are always surfaced.
 //
 //	(1 scenario)             demux scenario with a failing reader (demux.go / RunDemux.v)
+//	(3 scenario cause)       the same, the reader's failure being an error that is not end of file but WRAPS io.EOF (cause 1) or
+//	                         io.ErrUnexpectedEOF (cause 2), the way layered readers report a broken transfer; same model as (1 ...)
 //	(2 period ops failAt oneShot)  muxer history with the failAt-th Write call failing (RunC18.v); oneShot is not part of
 //	                         what the model sees: the history is observed up to the failing call only
 type c18 struct{}
@@ -18,6 +21,30 @@ type c18 struct{}
 func init() { props["C18"] = c18{} }
 
 func (c18) Num() int { return 18 }
+
+// causeErr is a reader failure that is not end of file (package io: "Read must return EOF itself, not an error wrapping
+// EOF") but has an io sentinel in its Unwrap chain.
+type causeErr struct{ inner error }
+
+func (e *causeErr) Error() string { return "verif: injected fault: " + e.inner.Error() }
+func (e *causeErr) Unwrap() error { return e.inner }
+
+// withCause runs f with the injected fault replaced by one that wraps io.EOF (1) or io.ErrUnexpectedEOF (2); the harness
+// runs cases one after the other, so the package variable can be swapped for the duration of a case.
+func withCause(cause int64, f func()) {
+	if cause == 0 {
+		f()
+		return
+	}
+	old := errInjected
+	if cause == 1 {
+		errInjected = &causeErr{io.EOF}
+	} else {
+		errInjected = &causeErr{io.ErrUnexpectedEOF}
+	}
+	defer func() { errInjected = old }()
+	f()
+}
 
 type faultCall struct {
 	code     int64
@@ -99,6 +126,22 @@ func (c18) Gen(r *Rng, tier string, emit func(string, Tok)) {
 			}
 		}
 	}
+	// ---- failures that wrap io.EOF / io.ErrUnexpectedEOF: still not end of file ----
+	for k := 0; k < scale(tier, 2, 8); k++ {
+		m := genRefStream(r, streamOpts{PESPIDs: r.Range(1, 2), UnitsPerPID: r.Range(1, 2), MaxPES: 300, Tables: true})
+		data := m.bytes()
+		if len(data) > 188*6 && tier != "thorough" {
+			data = data[:188*6]
+		}
+		for off := 0; off <= len(data); off += scale(tier, 9, 1) {
+			for kind := 0; kind < 3; kind++ {
+				cause := int64(1 + r.Intn(2))
+				opt := []int{188, 0}[r.Intn(2)]
+				emit("reader-fault-wrapped-eof", L(I(3), scenario{kind: kind, optSize: opt, fault: off, chunks: []int{r.Range(1, 250)}, data: data,
+					ops: []int{[]int{3, 4}[r.Intn(2)]}}.tok(), I(cause)))
+			}
+		}
+	}
 	// ---- calls after the failure: explicit NextPacket / NextData sequences that go on after the injected error
 	// (C18_demux_fault_persistent, C18_demux_pointwise); the replacing PacketsParser leaves data in the data buffer ----
 	for k := 0; k < scale(tier, 4, 20); k++ {
@@ -151,6 +194,38 @@ func (c18) Gen(r *Rng, tier string, emit func(string, Tok)) {
 			g.ops = append(g.ops, muxOp{kind: opPacket, p: p})
 			addHistory(r.Range(1, 3), g.ops)
 		}
+	}
+	// every optional part of the adaptation field goes through the underlying writer: PCR, OPCR, splice countdown,
+	// private data, and an extension with legal time window, piecewise rate and seamless splice (DTS_next_AU) -
+	// in the first packet of a WriteData and in a WritePacket
+	for _, size := range []int{10, 184, 3*184 - 100} {
+		fullAF := func() *astits.PacketAdaptationField {
+			return &astits.PacketAdaptationField{
+				HasPCR: true, PCR: &astits.ClockReference{Base: 5, Extension: 7}, RandomAccessIndicator: true,
+				HasOPCR: true, OPCR: &astits.ClockReference{Base: 1 << 32, Extension: 299},
+				HasSplicingCountdown: true, SpliceCountdown: 3,
+				HasTransportPrivateData: true, TransportPrivateData: r.Bytes(3), TransportPrivateDataLength: 3,
+				HasAdaptationExtensionField: true,
+				AdaptationExtensionField: &astits.PacketAdaptationExtensionField{
+					HasLegalTimeWindow: true, LegalTimeWindowIsValid: true, LegalTimeWindowOffset: 0x1234,
+					HasPiecewiseRate: true, PiecewiseRate: 0x2abcde,
+					HasSeamlessSplice: true, SpliceType: 5, DTSNextAccessUnit: &astits.ClockReference{Base: 1<<33 - 2},
+				},
+			}
+		}
+		g := newMuxGen(r, tier)
+		g.addExplicit(0)
+		pid := g.pids[0]
+		g.ops = append(g.ops, muxOp{kind: opSetPCR, pid: pid})
+		d := &astits.MuxerData{PID: pid, AdaptationField: fullAF(), PES: &astits.PESData{Data: r.Bytes(size), Header: &astits.PESHeader{StreamID: 0xe0,
+			OptionalHeader: &astits.PESOptionalHeader{MarkerBits: 2, PTSDTSIndicator: astits.PTSDTSIndicatorBothPresent,
+				PTS: &astits.ClockReference{Base: 90000}, DTS: &astits.ClockReference{Base: 86400}}}}}
+		g.ops = append(g.ops, muxOp{kind: opData, d: d})
+		g.ops = append(g.ops, muxOp{kind: opPacket, p: &astits.Packet{
+			Header:          astits.PacketHeader{PID: 0x321, ContinuityCounter: 9, HasAdaptationField: true, HasPayload: true, PayloadUnitStartIndicator: true},
+			AdaptationField: fullAF(), Payload: r.Bytes(size % 100)}})
+		g.tables()
+		addHistory(r.Range(1, 3), g.ops)
 	}
 	nCrafted := len(histories)
 	for k := 0; k < scale(tier, 3, 30); k++ {
@@ -218,6 +293,10 @@ func (c18) Run(c Tok) Tok {
 	switch c.At(0).Int() {
 	case 1:
 		return runScenario(scenarioOf(c.At(1))).observation()
+	case 3:
+		var obs Tok
+		withCause(c.At(2).Int(), func() { obs = runScenario(scenarioOf(c.At(1))).observation() })
+		return obs
 	case 2:
 		var ops []muxOp
 		for _, t := range c.At(2).L {
@@ -235,6 +314,10 @@ func (c18) Run(c Tok) Tok {
 
 func (c18) Oracle(c Tok, obs Tok) string {
 	switch c.At(0).Int() {
+	case 3:
+		w := ""
+		withCause(c.At(2).Int(), func() { w = c18{}.Oracle(L(I(1), c.At(1)), obs) })
+		return w
 	case 1:
 		s := scenarioOf(c.At(1))
 		run := runScenario(s)
